@@ -137,6 +137,28 @@ def run(ctx):
                         yield ("c05_valnone", {"f": f.hex(), "g": (f[:-2] + ck).hex(), "pbf": pbf})
 
     run_batch(ctx, MODULE, CFG, gen(), frames.OBSERVERS, sigfn, negfn)
+
+    # long frames (lengths around the byte / block boundaries and up to the 16-bit limit): checksum bytes and sampled positions
+    def gen_long():
+        for n in (254, 255, 256, 257, 1000, 5798, 5799, 6000, 20000, 65535) if ctx.thorough else (255, 256, 6000, 65535):
+            f = frame(rng.choice((0x02, 0x0A, 0x77)), rng.randrange(256), rng.randbytes(n))
+            yield ("c05_parse", {"f": f.hex()})
+            for k in (1, 2):
+                vals = range(256) if n < 7000 or ctx.thorough else sorted({0, 255, f[-k] ^ 1, f[-k] ^ 0x80, (f[-k] + 10) & 255, (f[-k] - 10) & 255})
+                for v in vals:
+                    if v != f[-k]:
+                        g = bytearray(f)
+                        g[-k] = v
+                        yield ("c05_parse", {"f": bytes(g).hex()})
+            for _ in range(12):
+                p = rng.randrange(len(f))
+                g = bytearray(f)
+                g[p] ^= 1 << rng.randrange(8)
+                yield ("c05_parse", {"f": bytes(g).hex()})
+            yield ("c05_parse", {"f": f[:-1].hex()})
+            yield ("c05_parse", {"f": (f + b"\x00").hex()})
+
+    run_batch(ctx, MODULE, CFG, gen_long(), frames.OBSERVERS, sigfn, negfn, chunk=400)
     ctx.exhaustive = False
     ctx.assumptions += ["third-party struct/int codecs of CPython are correct",
                         "TLC evaluates Fletcher8/WellFormed as written in spec/UbxFrame.tla (independent of calc_checksum)"]
